@@ -1204,3 +1204,38 @@ impl Typer {
         }
     }
 }
+
+/// Verification hook (compiled only with `--cfg goml_verif`): lets an external harness drive the
+/// private `norm` / `unify` on a fresh `Typer` and look at the union-find store. No behaviour of the
+/// compiler depends on it.
+#[cfg(goml_verif)]
+impl Typer {
+    pub fn verif_fresh(&mut self) -> tast::Ty {
+        self.fresh_ty_var()
+    }
+
+    pub fn verif_tvar(index: u32) -> tast::Ty {
+        use ena::unify::UnifyKey;
+        tast::Ty::TVar(TypeVar::from_index(index))
+    }
+
+    pub fn verif_tvar_index(var: TypeVar) -> u32 {
+        use ena::unify::UnifyKey;
+        var.index()
+    }
+
+    pub fn verif_unify(&mut self, diagnostics: &mut Diagnostics, l: &tast::Ty, r: &tast::Ty) -> bool {
+        self.unify(diagnostics, l, r)
+    }
+
+    pub fn verif_norm(&mut self, ty: &tast::Ty) -> tast::Ty {
+        self.norm(ty)
+    }
+
+    /// (root key, value stored at the root) of variable `index`
+    pub fn verif_probe(&mut self, index: u32) -> (u32, Option<tast::Ty>) {
+        use ena::unify::UnifyKey;
+        let v = TypeVar::from_index(index);
+        (self.uni.find(v).index(), self.uni.probe_value(v))
+    }
+}
